@@ -43,7 +43,7 @@ byte stream is exactly frame(A) NUL frame(B) NUL, or frame(B) NUL if nothing of 
 (whole frames only, each at most once). Cancellation history = 2..6 sends on one connection, each \
 either driven to completion (the peer drains while it is Pending) or polled 1..4 times with the \
 peer reading a generated number of bytes in between and then dropped, the last one completing; \
-Served scenario = zlink's own Server on a real listener (bound, or built from an inherited descriptor) in its own thread under tokio or smol, serving 1..6 real client connections driven under tokio (current / multi-thread) or smol - also the other runtime than the server's - each working through 1..6 operations {call, call answered by the declared error, oneway call, chain of 1..5 pipelined calls, streaming call with 1..5 items} with parameters of 1 B..530 KB; oracle: every client gets exactly the replies the service gives (ids, sequence numbers, every byte of the position-dependent pattern, continues flags), a oneway call gets nothing, and a final call is still answered. Cancellation-history \
+Abandoned-receive scenario = the peer writes 1..5 frames (1 B..80 KB) in fragments of generated sizes; after each fragment the pending receive_call is polled and, per a generated pattern, dropped and started afresh; oracle: every message arrives once, in order, byte-exact (the transports' read halves must be cancel safe, as the connection assumes). Served scenario = zlink's own Server on a real listener (bound, or built from an inherited descriptor) in its own thread under tokio or smol, serving 1..6 real client connections driven under tokio (current / multi-thread) or smol - also the other runtime than the server's - each working through 1..6 operations {call, call answered by the declared error, oneway call, chain of 1..5 pipelined calls, streaming call with 1..5 items} with parameters of 1 B..530 KB; oracle: every client gets exactly the replies the service gives (ids, sequence numbers, every byte of the position-dependent pattern, continues flags), a oneway call gets nothing, and a final call is still answered. Cancellation-history \
 oracle: the peer's stream consists of whole frames that form a subsequence of the sent frames \
 (each at most once, in order) and contains every frame whose send completed. Non-trivial = a message larger than 208 KiB in flight \
 with traffic in the other direction, or a cancellation after a partial write; distinct by hash of \
@@ -173,6 +173,10 @@ pub enum Scenario {
     /// `polls = Some(k)` polls the send future at most k times with the peer reading `peer_reads`
     /// bytes in between, then drops it (finished or not). The last step always completes.
     CancelHistory { rt: Rt, steps: Vec<CancelStep> },
+    /// Receives abandoned on a real socket: the peer writes the frames of `sizes` in fragments of
+    /// the (cycled) lengths `frags`; after each fragment the pending receive is polled a few times
+    /// and, where `drops` (cycled) says so, dropped and started afresh.
+    RecvCancel { rt: Rt, sizes: Vec<usize>, frags: Vec<usize>, drops: Vec<bool> },
     /// zlink's own `Server` on a real listener (runtime `server_rt`, in its own thread) serving
     /// 1..6 real client connections (runtime `client_rt`, possibly the other one), each working
     /// through a list of operations; every client must get exactly the replies the service gives.
@@ -614,6 +618,118 @@ fn run_cancel_history(rt: Rt, steps: &[CancelStep]) -> Result<(bool, usize), Str
     Ok((partial > 0, partial))
 }
 
+// ---- abandoned receives on a real socket ----
+
+async fn recv_cancel_core<S: Socket>(mut conn: Connection<S>, mut peer: StdUnixStream, sizes: &[usize], frags: &[usize], drops: &[bool], pause: Pause) -> Result<usize, String> {
+    use std::io::Write;
+    let mut stream = Vec::new();
+    for (i, &n) in sizes.iter().enumerate() {
+        let s = pattern(i, n);
+        stream.extend(serde_json::to_vec(&Call::new(MethodA::Echo { s: &s, n: i as i64 })).map_err(|e| e.to_string())?);
+        stream.push(0);
+    }
+    let mut written = 0usize;
+    let mut frag_no = 0usize;
+    let mut got = 0usize;
+    let mut abandoned_mid_frame = 0usize;
+    let mut frame_ends = Vec::new();
+    {
+        let mut at = 0;
+        for (i, &n) in sizes.iter().enumerate() {
+            let s = pattern(i, n);
+            at += serde_json::to_vec(&Call::new(MethodA::Echo { s: &s, n: i as i64 })).unwrap().len() + 1;
+            frame_ends.push(at);
+        }
+    }
+    let mut idle = 0usize;
+    'outer: while got < sizes.len() {
+        let fut = conn.receive_call::<MethodA<'_>>();
+        let mut fut = std::pin::pin!(fut);
+        let mut polls = 0usize;
+        loop {
+            match futures_util::poll!(fut.as_mut()) {
+                std::task::Poll::Ready(Ok(call)) => {
+                    let n = sizes[got];
+                    match call.method() {
+                        MethodA::Echo { s, n: idx } if *idx == got as i64 && s.len() == n && **s == pattern(got, n) => {}
+                        other => return Err(format!("message {got}: expected index {got} with {n} pattern bytes, got {}", vcommon::ev::truncate(&format!("{other:?}"), 120))),
+                    }
+                    got += 1;
+                    idle = 0;
+                    continue 'outer;
+                }
+                std::task::Poll::Ready(Err(e)) => return Err(format!("receive of message {got} failed: {e:?} ({written} of {} bytes written by the peer, {abandoned_mid_frame} receives abandoned inside a frame)", stream.len())),
+                std::task::Poll::Pending => {
+                    polls += 1;
+                    pause().await;
+                    if polls < 2 {
+                        continue;
+                    }
+                    polls = 0;
+                    if written < stream.len() {
+                        let n = frags[frag_no % frags.len()].max(1).min(stream.len() - written);
+                        peer.write_all(&stream[written..written + n]).map_err(|e| e.to_string())?;
+                        written += n;
+                        let drop_now = !drops.is_empty() && drops[frag_no % drops.len()];
+                        frag_no += 1;
+                        if drop_now {
+                            // let the bytes reach the connection (or not), then abandon the receive
+                            let k = 1 + frag_no % 3;
+                            for _ in 0..k {
+                                if let std::task::Poll::Ready(r) = futures_util::poll!(fut.as_mut()) {
+                                    match r {
+                                        Ok(call) => {
+                                            let n = sizes[got];
+                                            match call.method() {
+                                                MethodA::Echo { s, n: idx } if *idx == got as i64 && s.len() == n && **s == pattern(got, n) => {}
+                                                other => return Err(format!("message {got}: expected index {got} with {n} pattern bytes, got {}", vcommon::ev::truncate(&format!("{other:?}"), 120))),
+                                            }
+                                            got += 1;
+                                            continue 'outer;
+                                        }
+                                        Err(e) => return Err(format!("receive of message {got} failed: {e:?}")),
+                                    }
+                                }
+                                pause().await;
+                            }
+                            if !frame_ends.contains(&written) {
+                                abandoned_mid_frame += 1;
+                            }
+                            continue 'outer;
+                        }
+                    } else {
+                        idle += 1;
+                        if idle > 400 {
+                            return Err(format!("the peer wrote all {} bytes ({} frames) but only {got} messages were received; the receive stays pending ({abandoned_mid_frame} receives abandoned inside a frame)", stream.len(), sizes.len()));
+                        }
+                    }
+                }
+            }
+        }
+    }
+    Ok(abandoned_mid_frame)
+}
+
+fn run_recv_cancel(rt: Rt, sizes: &[usize], frags: &[usize], drops: &[bool]) -> Result<(bool, usize), String> {
+    let (a, peer) = StdUnixStream::pair().map_err(|e| e.to_string())?;
+    let n = match rt {
+        Rt::Smol => smol::block_on(async {
+            a.set_nonblocking(true).map_err(|e| e.to_string())?;
+            let a = smol::Async::new(a).map_err(|e| e.to_string())?;
+            recv_cancel_core(Connection::new(zlink_smol::unix::Stream::from(a)), peer, sizes, frags, drops, smol_pause).await
+        })?,
+        _ => {
+            let rt = tokio::runtime::Builder::new_current_thread().enable_all().build().map_err(|e| e.to_string())?;
+            rt.block_on(async {
+                a.set_nonblocking(true).map_err(|e| e.to_string())?;
+                let a = tokio::net::UnixStream::from_std(a).map_err(|e| e.to_string())?;
+                recv_cancel_core(Connection::new(zlink_tokio::unix::Stream::from(a)), peer, sizes, frags, drops, tokio_pause).await
+            })?
+        }
+    };
+    Ok((n > 0, n))
+}
+
 // ---- zlink's server on real sockets ----
 
 #[derive(Debug, Serialize, Deserialize)]
@@ -960,6 +1076,39 @@ fn scenarios(ctx: &Ctx) -> Vec<Scenario> {
         steps.last_mut().unwrap().polls = None;
         v.push(Scenario::CancelHistory { rt, steps });
     }
+    let n_rc = ctx.tier.pick(16u64, 300);
+    for i in 0..n_rc {
+        let r = mix(ctx.seed ^ 0x7ECC, i);
+        let rt = if i % 2 == 0 { Rt::TokioCurrent } else { Rt::Smol };
+        let sizes: Vec<usize> = (0..1 + (r % 5) as usize)
+            .map(|k| {
+                let q = mix(r, 20 + k as u64);
+                match q % 4 {
+                    0 => 1 + (q >> 8) as usize % 200,
+                    1 => 200 + (q >> 8) as usize % 600,
+                    2 => 1000 + (q >> 8) as usize % 9000,
+                    _ => 20_000 + (q >> 8) as usize % 60_000,
+                }
+            })
+            .collect();
+        let frags: Vec<usize> = (0..1 + ((r >> 8) % 4) as usize)
+            .map(|k| {
+                let q = mix(r, 40 + k as u64);
+                match q % 4 {
+                    0 => 1 + (q >> 8) as usize % 20,
+                    1 => 100 + (q >> 8) as usize % 400,
+                    2 => 256 * (1 + (q >> 8) as usize % 8),
+                    _ => 3000 + (q >> 8) as usize % 30_000,
+                }
+            })
+            .collect();
+        let drops: Vec<bool> = (0..1 + ((r >> 16) % 5) as usize).map(|k| mix(r, 60 + k as u64) % 3 != 0).collect();
+        // bound the number of fragments (each costs a few reactor turns)
+        let total: usize = sizes.iter().sum::<usize>() + 60 * sizes.len();
+        let avg = (frags.iter().sum::<usize>() / frags.len()).max(1);
+        let frags = if total / avg > 150 { frags.iter().map(|f| f * (total / avg / 150 + 1)).collect() } else { frags };
+        v.push(Scenario::RecvCancel { rt, sizes, frags, drops });
+    }
     let n_served = ctx.tier.pick(24u64, 400);
     for i in 0..n_served {
         let r = mix(ctx.seed ^ 0x5E12, i);
@@ -1015,6 +1164,7 @@ fn run_scenario(sc: &Scenario, tag: u64, deadline: Duration) -> Option<Result<(b
                 Scenario::Cancel { rt, size, peer_reads, second_size } => run_cancel(*rt, *size, *peer_reads, *second_size),
                 Scenario::Ids { threads, per_thread } => run_ids(*threads, *per_thread),
                 Scenario::CancelHistory { rt, steps } => run_cancel_history(*rt, steps),
+                Scenario::RecvCancel { rt, sizes, frags, drops } => run_recv_cancel(*rt, sizes, frags, drops),
                 Scenario::Served { server_rt, client_rt, transport, clients } => run_served(*server_rt, *client_rt, *transport, clients, tag),
             });
             let _ = tx.send(match r {
@@ -1052,6 +1202,10 @@ fn classify(sc: &Scenario, stats: &mut Stats) -> bool {
         Scenario::Ids { threads, .. } => {
             stats.class("ids:connections-constructed-on-several-threads-at-once");
             *threads >= 2
+        }
+        Scenario::RecvCancel { rt, .. } => {
+            stats.class(&format!("recv-cancel:{rt:?}"));
+            false
         }
         Scenario::Served { server_rt, client_rt, transport, clients } => {
             stats.class(&format!("served:server={server_rt:?},clients={client_rt:?}"));
@@ -1115,7 +1269,10 @@ pub fn run(ctx: &Ctx) -> i32 {
                     stats.class("deadline-expired(inconclusive)");
                 }
                 Some(Ok((partial_cancel, partial))) => {
-                    if partial_cancel && matches!(sc, Scenario::CancelHistory { .. }) {
+                    if partial_cancel && matches!(sc, Scenario::RecvCancel { .. }) {
+                        stats.class("recv-cancel:receive-abandoned-inside-a-frame");
+                        nt = true;
+                    } else if partial_cancel && matches!(sc, Scenario::CancelHistory { .. }) {
                         stats.class("cancel-history:abandoned-after-a-partial-write");
                         if partial >= 2 {
                             stats.class("cancel-history:>=2-abandons-after-partial-writes");
@@ -1136,6 +1293,7 @@ pub fn run(ctx: &Ctx) -> i32 {
                         Scenario::Transfer { .. } if msg.contains("blocking mode") => "inherited-listener-left-blocking",
                         Scenario::Transfer { .. } => "transfer-lost-or-corrupted",
                         Scenario::Served { .. } => "served-exchange-lost-or-corrupted",
+                        Scenario::RecvCancel { .. } => "receive-abandoned-on-real-socket",
                     };
                     viol.push(Violation { sig: sig.into(), lane: "scenario".into(), case: serde_json::to_value(sc).unwrap(), message: msg });
                 }
@@ -1171,6 +1329,7 @@ pub fn replay(_lane: &str, case: serde_json::Value) -> Result<(), Fail> {
                     Scenario::Cancel { .. } | Scenario::CancelHistory { .. } => "send-cancelled-after-partial-write",
                     Scenario::Ids { .. } => "connection-ids-not-distinct",
                     Scenario::Served { .. } => "served-exchange-lost-or-corrupted",
+                    Scenario::RecvCancel { .. } => "receive-abandoned-on-real-socket",
                     _ => "transfer-lost-or-corrupted",
                 };
                 return Err(Fail::new(sig, format!("round {round}: {m}")));
